@@ -94,7 +94,6 @@ impl vstd::std_specs::convert::FromSpecImpl<UnixUserToken> for UserToken {
     open spec fn from_spec(v: UnixUserToken) -> UserToken { arbitrary() }
 }
 impl From<UnixUserToken> for UserToken { #[verifier::external_body] fn from(v: UnixUserToken) -> (r: UserToken) { unimplemented!() } }
-impl BTreeMap<String, Value> { #[verifier::external_body] pub fn clone(&self) -> (r: BTreeMap<String, Value>) ensures r@ == self@ { unimplemented!() } }
 pub struct Receiver<T> { pub o: Option<T> }
 pub mod broadcast { pub use super::Receiver; }
 impl KanidmProvider {
